@@ -1,7 +1,9 @@
 (* C10 — named methods coincide with the general method at their special parameter values. Statements only. *)
 From Coq Require Import String ZArith List Bool Reals QArith.
 From XV Require Import Base.Scalar Base.Sum Base.Mat Base.RInst Model.Eof Model.Cpcca Model.Eeof Model.Whiten Gen.T5cpcca
-  Proofs.C01_proofs Proofs.C10_proofs Proofs.C10_real Proofs.C16_proofs.
+  Proofs.C01_proofs Proofs.C10_proofs Proofs.C10_real Proofs.C16_proofs
+  Base.Hom Base.CInst Proofs.Hom_eof Proofs.Hom_cpcca.
+From Coquelicot Require Import Complex.
 Import ListNotations.
 
 (* MCA, CCA, RDA (and their Complex / Hilbert variants) are CPCCA with alpha pinned to 1, 0 and (0, 1):
@@ -58,3 +60,38 @@ Theorem C10_pca_all_modes : forall (F : Type) (K : Ops F), FieldLaws K ->
   pca_inverse_data K n p r Vb (pca_transform K n p r Vb X) = X.
 Proof. exact (@pca_fit_data_roundtrip_all). Qed.
 Print Assumptions C10_pca_all_modes.
+
+(* a Complex model fed real data equals the real model. The models are written once over the scalar record [Ops]; every
+   map between two instances that preserves the operations of the record commutes with the model (Base/Hom.v: proved
+   function by function). The embedding RtoC of the reals into the complex numbers (Coquelicot's C) is such a map
+   (RtoC_hom; division and inverse included, 1/0 = 0 on both sides), hence: whatever admissible SVD answer the real
+   model is given, its embedding is an admissible answer for the embedded data, and the complex fit returns the embedded
+   real fit - components, scores, norms, explained variances, total variance, and the SAME signs (the sign rule sees
+   |max| and |min| of real numbers on both sides) *)
+Theorem C10_model_commutes_with_homomorphisms : forall (F G : Type) (K1 : Ops F) (K2 : Ops G) (h : F -> G), OpsHom K1 K2 h ->
+  forall (n p r k : nat) (X : list (list F)) (a : @svd_answer F),
+  eof_fit K2 n p r k (mmap h X) (amap h a) = omap h (eof_fit K1 n p r k X a).
+Proof. exact (@eof_fit_hom). Qed.
+Print Assumptions C10_model_commutes_with_homomorphisms.
+
+Theorem C10_complex_eof_on_real_data : forall (n p r k : nat) (X : list (list R)) (a : @svd_answer R),
+  svd_ok OR n p r X a ->
+  svd_ok OCR n p r (mmap RtoC X) (amap RtoC a) /\
+  eof_fit OCR n p r k (mmap RtoC X) (amap RtoC a) = omap RtoC (eof_fit OR n p r k X a).
+Proof. exact complex_eof_on_real_data. Qed.
+Print Assumptions C10_complex_eof_on_real_data.
+
+(* the same for the cross-set core: ComplexMCA / ComplexCPCCA fed two real fields *)
+Theorem C10_complex_cross_on_real_data : forall (n p1 p2 r k : nat) (X Y : list (list R)) (a : @svd_answer R),
+  svd_ok OR p1 p2 r (cross_cov OR n p1 p2 X Y) a ->
+  svd_ok OCR p1 p2 r (cross_cov OCR n p1 p2 (mmap RtoC X) (mmap RtoC Y)) (amap RtoC a) /\
+  cpcca_fit OCR n p1 p2 r k (mmap RtoC X) (mmap RtoC Y) (amap RtoC a) = cpmap RtoC (cpcca_fit OR n p1 p2 r k X Y a).
+Proof. exact complex_cross_on_real_data. Qed.
+Print Assumptions C10_complex_cross_on_real_data.
+
+(* transform and inverse_transform commute as well *)
+Theorem C10_complex_transform_on_real_data : forall (m p k : nat) (o : @eof_out R) (Xn S : list (list R)),
+  eof_transform OCR m p k (omap RtoC o) (mmap RtoC Xn) = mmap RtoC (eof_transform OR m p k o Xn) /\
+  eof_inverse OCR m p k (omap RtoC o) (mmap RtoC S) = mmap RtoC (eof_inverse OR m p k o S).
+Proof. exact (fun m p k o Xn S => conj (eof_transform_hom OR OCR RtoC RtoC_hom m p k o Xn) (eof_inverse_hom OR OCR RtoC RtoC_hom m p k o S)). Qed.
+Print Assumptions C10_complex_transform_on_real_data.
